@@ -113,7 +113,7 @@ def prefixSlice (g : Option (Text × String)) (k : Nat) (x : Text) : Option (Res
 /-! ## passwd / group (`UserEntry.Parse`, `GroupEntry.Parse`) -/
 
 def userParse (gs : GuardList) (line : Text) : Res User :=
-  let parts := splitOnChar ':' (trimSpace line)
+  let parts := splitOnChar ':' (trimEOL line)
   if !passes (findLen gs "parts") parts.length then .err else
   (idx parts 0).bind fun n =>
   (idx parts 1).bind fun pw =>
@@ -130,7 +130,7 @@ def userParse (gs : GuardList) (line : Text) : Res User :=
       (idx parts 6).bind fun sh => .ok ⟨n, pw, toU32 u, toU32 g, info, home, sh⟩
 
 def groupParse (gs : GuardList) (line : Text) : Res Group :=
-  let parts := splitOnChar ':' (trimSpace line)
+  let parts := splitOnChar ':' (trimEOL line)
   if !passes (findLen gs "parts") parts.length then .err else
   (idx parts 0).bind fun n =>
   (idx parts 1).bind fun pw =>
